@@ -49,6 +49,7 @@ structure TAcc where
   evs : List Ev := []            -- reversed
   bad : Option (Nat × String) := none
   n : Nat := 0
+  tsan : Bool := false
 
 def gaOf (tab : List (Nat × Int)) : Nat → Int := fun h =>
   match tab.find? (fun p => p.1 == h) with
@@ -60,7 +61,7 @@ def verdict (a : TAcc) : String :=
   | some (i, msg) => s!"reject {i} {msg}"
   | none =>
     let ga := gaOf a.tab
-    match feedAll (ga := ga) { m := Walk.start ga } 0 (a.evs.reverse ++ [Ev.fin]) with
+    match feedAll (ga := ga) { m := Walk.start ga } 0 (a.evs.reverse ++ [Ev.fin (!a.tsan)]) with
     | .ok v => s!"ok steps={v.m.sched.length} events={a.n} spurious={v.spurious}"
     | .error (i, msg) => s!"reject {i} {msg}"
 
@@ -72,6 +73,7 @@ def addLine (a : TAcc) (line : String) : TAcc :=
     match k.toNat?, rc.toInt? with
     | some k, some rc => { a with tab := (k, rc) :: a.tab }
     | _, _ => { a with bad := some (a.n, "unparsable oracle line") }
+  | ["mode", "tsan"] => { a with tsan := true }
   | "crash" :: rest => { a with bad := some (a.n, "CRASH " ++ " ".intercalate rest) }
   | "timeout" :: _ => { a with bad := some (a.n, "TIMEOUT: the scenario did not complete (lost wake-up / deadlock / lost request)") }
   | "overflow" :: _ => { a with bad := some (a.n, "event log overflow (runaway loop)") }
